@@ -55,6 +55,10 @@ func (p c18) Gen(r *simhook.Rand, tier string, idx int) harness.Scenario {
 	sc.Meta = harness.GenMeta(r, 0)
 	n := 1 + r.Intn(6)
 	sc.Env = world.RedisCfg{Masters: n, SeedMasters: true}
+	if r.Chance(1, 4) {
+		// standby members of type backup next to the main ones: not part of the node set a SCAN walks
+		sc.Env.BackupHosts = 1 + r.Intn(2)
+	}
 	if r.Chance(1, 3) {
 		sc.Env.FragNum, sc.Env.FragDen = 1, 2
 	}
